@@ -318,6 +318,36 @@ def run(ctx):
     # what is signed / hashed is the canonical JSON form: the canonical-JSON rules of C01 are part of this check
     from . import C01 as _C01
     _C01.run(ctx)
+    # signing has no size limit (sign_json serializes whatever it is given), so verification must not have one either: the 65 535-byte limit belongs
+    # to the event functions (content_hash / reference_hash, see C05) and must not move into the canonical-JSON helpers that verify_json goes through
+    ctx.rule("C02.no-size-limit", "no function reachable from sign_json / verify_json / canonical_json / verify_canonical_json_bytes constructs Error::PduSize "
+                                  "(the 65 535-byte limit belongs to the event functions; an object that was signed must verify)")
+    makers = set()
+    for g in w.all_fns():
+        if "body" not in g or not g["path"].startswith("ruma_signatures::") and "ruma_signatures::" not in g["path"]:
+            continue
+        for body in M.all_bodies(g):
+            for b in body["blocks"]:
+                for st in b["s"]:
+                    if st[0] == "=" and st[2][0] == "agg" and st[2][1].get("variant") == "PduSize" and str(st[2][1].get("adt", "")).endswith("error::Error"):
+                        makers.add(re.sub(r"(::\{closure#\d+\})+", "", g["path"]))
+    ctx.floor("functions constructing Error::PduSize", len(makers), 1)
+    # ... and none of them is reachable from the JSON (non-event) entry points
+    from . import panic_common as _PC
+    edges = _PC.call_graph(w)
+    roots = [n_ for n_ in edges if re.fullmatch(r"ruma_signatures::functions::(sign_json|verify_json|canonical_json|verify_canonical_json_bytes)", n_)]
+    ctx.floor("JSON entry points of ruma_signatures::functions", len(roots), 3)
+    seen, todo = set(), list(roots)
+    while todo:
+        x = todo.pop()
+        if x in seen:
+            continue
+        seen.add(x)
+        todo += [y for y in edges.get(x, ()) if y not in seen]
+    reach = {re.sub(r"(::\{closure#\d+\})+", "", x) for x in seen}
+    extra = sorted(makers & reach)
+    ctx.check(not extra, "C02.no-size-limit", "C02.no-size-limit:makers", "",
+              bad_msg=f"Error::PduSize is also raised by {extra}: an object larger than a PDU can be signed (sign_json has no limit) but its verification / canonical form is refused")
     ctx.assumptions += ["ed25519-dalek implements RFC 8032; base64 crate implements RFC 4648",
                         "reviewed exception: serde_json::to_string(&CanonicalJsonObject) cannot fail, so its Err edge in sign_json is infeasible"]
     ctx.samples += [{"path": "sign_json, signatures = 5", "expected": "Err and object restored"},
